@@ -378,6 +378,7 @@ def mut_alphabet(v, seed):
             ops.append(['replace', p, '', -1, True])
             ops.append(['replace', p, 'ZZ', 1, True])
             ops.append(['replace', p, ['ctor', 'q', R['R']], -1, True])
+            ops.append(['replace', p, ['ctor', 'q', R['q']], 1, True])       # a replacement with a verbatim two-group setting
     ops.append(['replace', '', '.', -1, True])
     ops.append(['case', 'upper', True])
     ops.append(['case', 'title', True])
@@ -527,7 +528,7 @@ def run_task(task, acc):
                 acc.transitions += 1
 
                 def run(h2=h2):
-                    return build(h2)
+                    return build(h2, reads=False)
                 try:
                     w = watchdog.guarded(run)
                 except watchdog.Hang as e:
@@ -577,9 +578,9 @@ def run_task(task, acc):
                 rcase = None
                 try:
                     qv = model.query_vector(w)
-                    for variant in ('read', 'read+copy'):
+                    for variant in ('read', 'reads', 'read+copy'):
                         rcase = {'kind': 'read', 'hist': hh, 'op': op, 'variant': variant, 'seed_len': len(h0)}
-                        w2 = build(read_variant(hh, op, variant, len(h0)))
+                        w2 = build(read_variant(hh, op, variant, len(h0)), reads=False)
                         q2 = model.query_vector(w2)
                         if q2 != qv:
                             acc.violation('read-changes-future', rcase,
@@ -620,7 +621,7 @@ def read_variant(hh, op, variant, seed_len):
         return hh + [['read'], op]
     inter = list(hh[:seed_len])
     for st in hh[seed_len:] + [op]:
-        inter += [['read'], ['copy'], st]
+        inter += [['read'], st] if variant == 'reads' else [['read'], ['copy'], st]
     return inter
 
 
@@ -650,8 +651,8 @@ def replay(case):
             return [('iterator-after-mutation', '%s: %s' % (type(e).__name__, e))]
     if case['kind'] == 'read':
         try:
-            w = build(case['hist'] + [case['op']])
-            w2 = build(read_variant(case['hist'], case['op'], case.get('variant', 'read'), case.get('seed_len', 1)))
+            w = build(case['hist'] + [case['op']], reads=False)
+            w2 = build(read_variant(case['hist'], case['op'], case.get('variant', 'read'), case.get('seed_len', 1)), reads=False)
             return [] if model.query_vector(w) == model.query_vector(w2) else [('read-changes-future', 'differs')]
         except Exception as e:  # noqa
             return [('read-changes-future', '%s: %s' % (type(e).__name__, e))]
